@@ -65,19 +65,29 @@ def par_steps(fns, k, pfx="p"):
             path.store["_2.0"] = symex.bv(bvconst(i, 64), 64)
             path.store["_2.1.%d" % fld] = symex.bv(u, 32)
         paths = [p for p in s.run("bb0", init=init) if p.end == "return"]
-        if len(paths) != 1:
-            raise RuntimeError("expected one feasible path through the planning closure for idx=%d, got %d" % (i, len(paths)))
-        p = paths[0]
+        if not paths:
+            raise RuntimeError("no path through the planning closure for idx=%d" % i)
         decls.update(s.decls)
-        wt = [e for e in p.events if e[0].endswith("write_term")]
-        if len(wt) != 1:
-            raise RuntimeError("planning closure does not call write_term exactly once")
-        st = dict(start=s.debug_val(p, "start").t, end=s.debug_val(p, "end").t, file_offset=s.debug_val(p, "file_offset").t,
-                  len=s.debug_val(p, "len").t, U=u, pc=list(p.pc), task_file_offset=wt[0][1][3])
-        rem, bw = s.debug_val(p, "remaining").t, s.debug_val(p, "bytes_written").t
+        for p in paths:
+            wt = [e for e in p.events if e[0].endswith("write_term")]
+            if len(wt) != 1:
+                raise RuntimeError("planning closure does not call write_term exactly once")
+
+        def merged(fn_):
+            """value of an output as a function of the step's inputs: ite over the (disjoint) path conditions"""
+            t = fn_(paths[-1])
+            for p in reversed(paths[:-1]):
+                t = symex.mk_ite(mk_and(p.pc), fn_(p), t)
+            return t
+        dv = lambda name: (lambda p: s.debug_val(p, name).t)
+        st = dict(start=merged(dv("start")), end=merged(dv("end")), file_offset=merged(dv("file_offset")), len=merged(dv("len")), U=u,
+                  pc=["(or %s)" % " ".join(mk_and(p.pc) for p in paths)] if len(paths) > 1 else list(paths[0].pc),
+                  task_file_offset=merged(lambda p: [e for e in p.events if e[0].endswith("write_term")][0][1][3]))
+        rem, bw = merged(dv("remaining")), merged(dv("bytes_written"))
         st["remaining_out"], st["bytes_written_out"] = rem, bw
-        for (pc, cond, msg, bb) in p.vcs:
-            vcs.append(("term%d %s@%s" % (i, msg[:40], bb), pc, cond))
+        for p in paths:
+            for (pc, cond, msg, bb) in p.vcs:
+                vcs.append(("term%d %s@%s" % (i, msg[:40], bb), pc, cond))
         steps.append(st)
     return decls, off, rem0, steps, vcs
 
@@ -274,7 +284,10 @@ def build_structure(fns):
     ordered = g.blocks_calling(r"as StreamExt>::buffered$")
     unordered = g.blocks_calling(r"buffer_unordered|FuturesUnordered")
     sc.query("sequential writer: term downloads are consumed through an order-preserving buffer", ["false"] if ordered and not unordered else ["true"])
-    f = mir.find_fn(fns, r"interface::<impl at [^>]*>::get_writer_at$|FileProvider.*get_writer_at$")
+    cands = [fn for n, fn in fns.items() if re.search(r"::get_writer_at$", n) and "_1: &FileProvider" in fn.header]
+    if len(cands) != 1:
+        raise LookupError("FileProvider::get_writer_at not found (%d candidates)" % len(cands))
+    f = cands[0]
     s = symex.Sym(f, prefix="fw.", models=symex.STD_MODELS, max_visits=1)
     paths = [p for p in s.run("bb0", max_paths=2000) if p.end == "return"]
     n = 0
